@@ -28,7 +28,7 @@ ENTRY(h_c10_tsm){
     tree.applyToAllLeavesSource([&](auto&& hdr, const long* pidx, auto&&, auto&&){ LeafRec& r = gRS.leaves[gRS.nbLeaves++]; r.idx = hdr.spaceIndex; r.nb = hdr.nbParticles; r.pidx = pidx; for(int d = 0; d < DIM; ++d) r.coord[d] = hdr.boxCoord[d]; });
     tree.applyToAllLeavesTarget([&](auto&& hdr, const long* pidx, auto&&, auto&&){ LeafRec& r = gRT.leaves[gRT.nbLeaves++]; r.idx = hdr.spaceIndex; r.nb = hdr.nbParticles; r.pidx = pidx; for(int d = 0; d < DIM; ++d) r.coord[d] = hdr.boxCoord[d]; });
     gTK = TFlags(); gTK.geom = true; gTK.periodic = true;
-    gTop = TopState(); gTop.k = k;
+    gTop = TopState(); gTop.k = k; for(int d = 0; d < DIM; ++d) gTop.boxw[d] = cfg.getBoxWidths()[d];
     AlgoT algo(cfg, TbfDefaultLastLevelPeriodic);
     TopAlgoT top(cfg, k);
     algo.execute(tree, TbfAlgorithmUtils::TbfBottomToTopStages);
